@@ -5,6 +5,7 @@ CONSTANTS
   Garbage <- GarbageDef
   SharedScratch = TRUE
   LenBeforeWrite = FALSE
+  Memo = "none"
 SPECIFICATION Spec
 INVARIANT Pure
 INVARIANT PeekPure
